@@ -690,7 +690,7 @@ theorem parseFile_sections_detect (h : Hooks) {fuel : Nat} {buf buf' : Bytes} {s
 /-- one step of the file walk, run forward: the walk is inside the volume -/
 theorem parseFiles_step {h : Hooks} {fuel : Nat} {data : Bytes} {offset lh length : Nat} {st st1 : St}
     {fs : List File} {free : Nat}
-    (hp : parseFiles h fuel data offset lh length st = .ok (fs, free, st1)) (hlt : offset < lh) :
+    (hp : parseFiles h fuel data offset lh length st = .ok (fs, free, st1)) (hlt : offset ≤ lh) :
     ∃ fuel0 fo st2, fuel = fuel0 + 1 ∧ align8 offset < data.length ∧
       parseFile h fuel0 (data.drop (align8 offset)) st = .ok (fo, st2) ∧
       (fo = none → fs = []) ∧
